@@ -92,6 +92,9 @@ def run(ctx):
     conformance(ctx, cases, s2, 2, "two-listeners", modes, 8000 if thorough else 700, rnd)
     from checks import c10_physical
     c10_physical.run(ctx)
+    # ---- station visibility streams (last clause of the property) ---------------------------------------------------------------
+    from checks import c10_visibility
+    c10_visibility.run(ctx)
     # ---- the repository's own test-suite: every iteration with listeners, trace-validated (SuiteTrace.tla) ------------------
     from checks import suite
     suite.run(ctx, "C10", "streams")
